@@ -22,6 +22,23 @@ CHECKS = {
         "Trusts the ASTM transcription (validated on the standard's example), clang 14 "
         "ASan/UBSan, and that numba (absent here) would compile the same source "
         "faithfully.", "5/C05"),
+    "C10": (
+        "predicate monitors on findap masks (default path and numba-branch source under an "
+        "identity stub), interval-membership reference model for getbins/binify/sigcount, "
+        "independent exact SDOF + closed-form Rayleigh damage oracle for fdepsd invariants",
+        "Seeded signal families aimed at the selection rule (coarse random walks, plateaus, "
+        "sub-tolerance drifts, first-change-is-last, length 1/2/3, huge offsets; four "
+        "tolerances) are run through both findap sources and judged by start/alternation/"
+        "extreme predicates and mask equality; cycle tables x bin specifications (scalar, "
+        "covering, touching, not covering; right both ways; near-degenerate ranges) are "
+        "judged against a pure-Python interval-membership model and count conservation; "
+        "fdepsd is run over its option product and judged on monotone counts, total count "
+        "recomputed from independently computed oscillator responses, amplitude <= SRS, "
+        "G2 >= G1, damage indicators, test-variance relation and k^2 scaling.  Mandatory "
+        "coverage cells per family/option.  Held on the executions observed.",
+        "Trusts the oracle's reading of the documented findap/getbins rules and the "
+        "Rayleigh damage closed forms; numba JIT behaviour is not observable (numba "
+        "absent): the numba-branch source is executed as plain Python.", "5/C10"),
 }
 
 NOT_YET = {}
